@@ -1,7 +1,13 @@
 (* C13 — packed encoding is a lossless, spec-conformant, truncation-safe codec.
    Statements only; each is closed by [exact] of a lemma proved elsewhere. *)
-From CV Require Import Packed.Packed Packed.PackSpec Packed.PackedProofs Packed.ReaderProofs
-  Packed.ReadCallProofs.
+From CV Require Import Packed.Packed.
+From CV Require Import Packed.PackSpec.
+From CV Require Import Packed.PackedProofs.
+From CV Require Import Packed.ReaderProofs.
+From CV Require Import Packed.ReadCallProofs.
+From CV Require Import Packed.ReadCallProofs2.
+From CV Require Import Packed.ReadFull.
+From CV Require Import Packed.ReadFullProofs.
 Open Scope Z_scope.
 
 (* every word-aligned byte string: the packed form decodes back to it, both with the
@@ -54,3 +60,114 @@ Print Assumptions C13_growth.
 (* non-vacuity: the bound is reached *)
 Example C13_growth_tight : unpack [0; 255] = Some (repeat 0 2048).
 Proof. vm_compute. reflexivity. Qed.
+
+(* ---- round 2: Reader.Read on streams the one-shot decoder rejects ---- *)
+
+(* the exact behaviour of the byte interface on EVERY input (accepted or not), every sequence
+   of request sizes (each >= 1), every fast-path and short-read oracle: the Read calls return
+   [fst (unpack_partial inp)] -- the output of the complete items plus the whole words
+   determined by the cut last item, a function of the input alone -- and then EOF if the input
+   is a complete sequence of items, UnexpectedEOF otherwise *)
+Theorem C13_read_partial : forall orc sizes inp, bytes_ok inp ->
+  forall fuel, (2304 * length inp + 1 <= fuel)%nat ->
+  read_calls true fuel orc 0 b_init inp sizes 0
+  = Some (fst (unpack_partial inp), verdict (snd (unpack_partial inp))).
+Proof. exact read_calls_partial. Qed.
+Print Assumptions C13_read_partial.
+
+(* unpack_partial against the one-shot decoder: equal on accepted inputs; extends the output
+   of every accepted prefix; is a prefix of the output of an accepted extension *)
+Theorem C13_partial_is_unpack : forall src,
+  match unpack src with
+  | Some out => unpack_partial src = (out, true)
+  | None => snd (unpack_partial src) = false
+  end.
+Proof. exact unpack_partial_unpack. Qed.
+Print Assumptions C13_partial_is_unpack.
+
+Theorem C13_partial_app : forall good rest out, unpack good = Some out ->
+  unpack_partial (good ++ rest) = pmap out (unpack_partial rest).
+Proof. exact unpack_partial_app. Qed.
+Print Assumptions C13_partial_app.
+
+Theorem C13_partial_sound : forall src, bytes_ok src ->
+  exists ext more, bytes_ok ext /\ unpack (src ++ ext) = Some (fst (unpack_partial src) ++ more).
+Proof. exact unpack_partial_sound. Qed.
+Print Assumptions C13_partial_sound.
+
+(* prefix property at the Read interface, all of the above combined: what is handed out before
+   the terminal error contains the output of every accepted prefix of the input and is
+   contained in the one-shot output of an accepted extension of the input (no invented bytes
+   on truncated / malformed input either) *)
+Theorem C13_read_prefix : forall orc sizes inp, bytes_ok inp ->
+  forall fuel, (2304 * length inp + 1 <= fuel)%nat ->
+  exists o e,
+    read_calls true fuel orc 0 b_init inp sizes 0 = Some (o, e) /\
+    o = fst (unpack_partial inp) /\
+    e = match unpack inp with Some _ => EOF | None => UnexpectedEOF end /\
+    (forall good rest out, inp = good ++ rest -> unpack good = Some out ->
+       exists extra, o = out ++ extra) /\
+    (exists ext more, bytes_ok ext /\ unpack (inp ++ ext) = Some (o ++ more)).
+Proof. exact read_calls_prefix. Qed.
+Print Assumptions C13_read_prefix.
+
+(* invariants of one Read call / of all Read calls, repaired or as-found code, with or without
+   an error, whether or not the stream unpacks: valid state, and the word buffer, the rest of
+   the input and everything returned are bytes *)
+Theorem C13_read_call_bytes_ok : forall strict orc k st inp n k' st' inp' got oe,
+  bvalid st -> bytes_ok (b_word st) -> bytes_ok inp ->
+  read_call strict orc k st inp n = (k', st', inp', got, oe) ->
+  bvalid st' /\ bytes_ok (b_word st') /\ bytes_ok inp' /\ bytes_ok got.
+Proof. exact read_call_bytes_ok. Qed.
+Print Assumptions C13_read_call_bytes_ok.
+
+Theorem C13_read_calls_bytes_ok : forall strict fuel orc k st inp sizes j out e,
+  bvalid st -> bytes_ok (b_word st) -> bytes_ok inp ->
+  read_calls strict fuel orc k st inp sizes j = Some (out, e) -> bytes_ok out.
+Proof. exact read_calls_bytes_ok. Qed.
+Print Assumptions C13_read_calls_bytes_ok.
+(* non-vacuity: ReadCallProofs2.read_calls_prefix_example (ex_inp cut inside its literal run:
+   5 words of complete items + the tag word and one literal word of the cut item are handed
+   out, then UnexpectedEOF), read_call_bytes_ok_example *)
+
+(* ---- round 3: io.ReadFull-style consumers of Reader.Read (capnp.Decoder reads this way) ---- *)
+
+(* a Read call that returns an error (EOF or UnexpectedEOF) returned strictly fewer bytes than
+   requested: every state, every input, every oracle, repaired or as-found code.  Hence
+   io.ReadFull, which drops an error that comes with a full buffer, never drops one here. *)
+Theorem C13_read_call_err_not_full : forall strict orc k st inp n k' st' inp' got e,
+  read_call strict orc k st inp n = (k', st', inp', got, Some e) -> (length got < n)%nat.
+Proof. exact read_call_err_not_full. Qed.
+Print Assumptions C13_read_call_err_not_full.
+
+(* every input, every sequence of io.ReadFull request sizes (request j asks for S (sizes j) >= 1
+   bytes), every fast-path and short-read oracle, any fuel above the bound: the concatenation of
+   what the ReadFull calls return is the one-shot decoder's output and the final error is
+   io.ReadFull's verdict on it ([rf_verdict]: EOF iff the output ends on a request boundary,
+   else UnexpectedEOF -- ReadAtLeast's own mapping); a rejected input ends with UnexpectedEOF,
+   never with a clean EOF *)
+Theorem C13_readfull_agrees : forall orc sizes inp, bytes_ok inp ->
+  forall fuel, (2304 * length inp + 1 <= fuel)%nat ->
+  match unpack inp with
+  | Some out => readfull_all (read_rd true orc) fuel 0 b_init inp sizes 0
+                = Some (out, rf_verdict (length out) sizes 0 (length out))
+  | None => exists o, readfull_all (read_rd true orc) fuel 0 b_init inp sizes 0
+                      = Some (o, UnexpectedEOF)
+  end.
+Proof. exact readfull_agrees. Qed.
+Print Assumptions C13_readfull_agrees.
+
+(* one byte per ReadFull: exactly the shape of C13_read_agrees *)
+Theorem C13_readfull_agrees_bytes : forall orc inp, bytes_ok inp ->
+  match unpack inp with
+  | Some out => readfull_all (read_rd true orc) (read_fuel inp) 0 b_init inp (fun _ => 0%nat) 0
+                = Some (out, EOF)
+  | None => exists o, readfull_all (read_rd true orc) (read_fuel inp) 0 b_init inp
+                                   (fun _ => 0%nat) 0 = Some (o, UnexpectedEOF)
+  end.
+Proof. exact readfull_agrees_bytes. Qed.
+Print Assumptions C13_readfull_agrees_bytes.
+(* non-vacuity: ReadFullProofs.readfull_example; refutation of the Read variant that returns a
+   parked error together with the data and clears it (seeded change C13-r4-1):
+   ReadFullProofs.readfull_eager_refuted -- the ReadFull consumer then accepts [1;7;0], a stream
+   cut before a run-count byte, with a clean EOF *)
